@@ -15,9 +15,11 @@ from props.ctl import Ctl
 
 PROPERTY = 'C12'
 
-ALPHA = ['a', ' ', '\t', '"', '\\', '=', "'", '#', '\r', '\n']
+ALPHA = ['a', ' ', '\t', '"', '\\', '=', "'", '#', '\r', '\n', '\x0b', '\x0c', '\x1c', '1']
 CNAME = {' ': 'space', '\t': 'tab', '"': 'dquote', '\\': 'backslash', '=': 'equals', "'": 'squote',
-         '#': 'hash', '\r': 'cr', '\n': 'lf'}
+         '#': 'hash', '\r': 'cr', '\n': 'lf', '\x0b': 'vt', '\x0c': 'ff', '\x1c': 'fs'}
+# keys: a configuration keyword is a plain token; anything else must be refused (or survive the round trip) - never a 2nd line
+BAD_KEYS = ['a\nb', 'a\rb', 'a\r\nSIGNAL SHUTDOWN', 'a b', 'a\tb', 'a=b', '', 'a"b', '"ab"', 'a\x0bb']
 SUBSET = ['', 'a', 'a b', ' ', '"', 'a"', '"a b"', '\\', 'a \\', 'a\tb', 'x=y', "'q'", 'a\nb', '#']
 NONSTR = [0, 1, -1, True, False, 1.5, 10 ** 12]
 KEYS = ['SocksPort', 'ORPort', 'ContactInfo']
@@ -66,6 +68,9 @@ def run_one(pairs, before=None):
             raised = e
         data = ctl.wire.value()
         has_nl = any(('\r' in s or '\n' in s) for s in strs)
+        key_ok = all(k != '' and all(ch.isalnum() or ch == '_' for ch in k) for k in keys)
+        if not key_ok:
+            has_nl = True       # a key that is not a plain keyword may be refused (it must never produce a second line)
         if raised is not None or (res is not None and res[0] == 'err'):
             if data:
                 viol.append(('refused-but-wrote', feature(strs, keys), 'refused %r but wrote %r' % (pairs, data)))
@@ -109,6 +114,7 @@ def tasks(tier, seed):
     for a in SUBSET:
         out.append(('multi', a))
     out.append(('nonstr',))
+    out.append(('keys',))
     return out
 
 
@@ -203,6 +209,15 @@ def run_task(param, acc):
                     r = run_one(pairs)
                     record(acc, pairs, r, n > 1)
         acc.sample(dict(pairs=pairs, wire=r['obs'][1]), limit=1)
+    elif param[0] == 'keys':
+        for k in BAD_KEYS:
+            for pairs in (((k, 'v'),), ((KEYS[0], 'x'), (k, 'v w')), ((k, 'v'), (KEYS[1], 'y'))):
+                r = run_one(pairs)
+                r['viol'] = [(c, 'key/' + f, d) for c, f, d in r['viol']]
+                acc.execution(key=('keys', pairs), outcome=r['obs'][0] + '/bad-key', nontrivial=True, steps=1)
+                acc.state(h64(r['obs']))
+                for clause, feat, detail in r['viol']:
+                    acc.violation('%s/%s' % (clause, feat), detail, dict(pairs=[[a, b] for a, b in pairs], keys=True), cost=len(k))
     else:
         for v in NONSTR:
             pairs = ((seedkey, v),)
@@ -221,6 +236,8 @@ def replay(p):
     pairs = tuple((k, v) for k, v in p['pairs'])
     before = tuple((k, v) for k, v in p['before']) if p.get('before') else None
     r = run_one(pairs, before=before)
+    if p.get('keys'):
+        r['viol'] = [(c, 'key/' + f, d) for c, f, d in r['viol']]
     suffix = '/after-an-earlier-call' if before else ''
     return dict(violations=[dict(signature='%s/%s%s' % (c, f, suffix), what=d) for c, f, d in r['viol']], log=r['log'])
 
